@@ -24,3 +24,260 @@ def xy_to_lonlat(sc, X, Y):
                 + (1 - p) * q * F[j0 + 1, i0] + p * q * F[j0 + 1, i0 + 1])
 
     return bil(lon), bil(lat)
+
+
+# ----------------------------------------------------------------------------
+# the oracle
+# ----------------------------------------------------------------------------
+
+import copy  # noqa: E402
+
+from ladsim import driver, gen, readback, refmodel, world  # noqa: E402
+from ladsim.oracles.common import Result, Violation, abstract_history, account_run, crash_violation  # noqa: E402
+from ladsim.rng import stream  # noqa: E402
+
+ID = "C16"
+LEVEL = "exploration"
+ANCHORS = ("ladim/sample.py",)
+RULE = ("(run) whole-model runs on conformal grids (rotated linear and polar-stereographic patches of 0.8 / 4 / 20 km "
+        "resolution), full grid and subgrids, release positions given as longitude/latitude computed by the generator "
+        "from known grid positions, lon/lat among the output variables; checked: every released particle starts where "
+        "the interpolated lon/lat equal the given ones (residual < 1e-7 deg^2, the documented solver tolerance), "
+        "lon/lat of every record equal the bilinear interpolation of the grid's coordinates at X, Y of the same record, "
+        "and Grid.xy2ll / ll2xy called on the live grid object at seeded positions of the valid region round-trip; "
+        "(utility) the clauses about the 2-D sampling utility are not reachable by any run, they are exercised by "
+        "direct seeded calls of ladim.sample.sample2D (no simulation involved): exact on bilinear fields, within the "
+        "corner range otherwise, masked nodes ignored, substitute value outside incl. 0.0. Non-trivial: >= 1 lon/lat "
+        "release and >= 1 record judged (run) / always (utility); distinct by (grid kind, resolution, subgrid, case)")
+COMPONENTS = {"real": ["Grid.xy2ll / ll2xy", "bilin_inv", "sample2D", "ParticleReleaser.clean_position", "Output lon/lat",
+                       "Model loop"],
+              "stub": ["synthetic ocean files with analytic lon/lat", "direct calls of sample2D (utility cases)"]}
+ASSUMPTIONS = ["solver tolerance = residual (dlon^2 + dlat^2) < 1e-7 deg^2 as documented in bilin_inv",
+               "'ignores masked nodes' is checked as: result within the range of the unmasked corners carrying weight, "
+               "all four masked -> undef_value"]
+TIERS = {"quick": dict(runs=600, budget_s=45, shrink=100),
+         "thorough": dict(runs=50000, budget_s=900, shrink=200)}
+REQUIRED_PROBES = ["run_stereo", "run_linear", "run_subgrid", "roundtrip", "output_lonlat", "utility_mask",
+                   "utility_outside_zero"]
+
+PROFILE = gen.profile(
+    nsteps=(1, 12), p_reversed=0.1, p_land=0.3, p_subgrid=0.5, grid_i=(9, 18), grid_j=(9, 16), rows=(2, 10),
+    p_late_rows=0.5, p_continuous=0.2, p_ibm=0.2, cfl=(0.05, 0.6), N=(1, 3), p_temp=0.1, p_numrec=0.2, p_dense=0.25,
+    p_pvars=0.1, p_extra_time=0.0, p_lonlat_out=1.0, lonlat_kinds=(("linear", 1), ("stereo", 2)), period=(1, 3),
+    p_f4=0.0,
+)
+
+
+def generate(seed: int, tier: str, idx: int) -> dict:
+    s = stream(seed, "c16")
+    if s.chance(0.25):
+        return {"plan": {"kind": "utility", "seed": s.randint(0, 2**31)}}
+    sc = gen.gen_scenario(seed, PROFILE)
+    sc["release"]["use_lonlat"] = s.chance(0.8)
+    for r in sc["release"]["rows"]:
+        lon, lat = xy_to_lonlat(sc, np.array([r["X"]]), np.array([r["Y"]]))
+        r["lon"], r["lat"] = float(lon[0]), float(lat[0])
+    sc["plan"] = {"kind": "run", "probe_seed": s.randint(0, 2**31)}
+    return sc
+
+
+def features(sc) -> set[str]:
+    if sc["plan"]["kind"] == "utility":
+        return {"kind_utility"}
+    f = gen.features(sc) | {"kind_run"}
+    f.add("lonlat_" + sc["grid"]["lonlat"]["kind"])
+    return f
+
+
+def base_reductions(sc):
+    if sc["plan"]["kind"] == "utility":
+        return
+    from ladsim import shrink
+
+    yield from shrink.reductions(sc)
+
+
+def execute_run(sc) -> Result:
+    res = Result()
+    ref = refmodel.RefWorld(sc)
+    store: dict = {}
+    xlo, xhi, ylo, yhi = truth.valid_region(sc)
+
+    def monitor(label, snap, rec):
+        if label != "forcing.post" or "rt" in store:
+            return
+        grid = rec.modules["grid"]
+        s = stream(sc["plan"]["probe_seed"], "probe")
+        X = np.array([s.uniform(xlo, xhi) for _ in range(24)])
+        Y = np.array([s.uniform(ylo, yhi) for _ in range(24)])
+        lon, lat = grid.xy2ll(X.copy(), Y.copy())
+        X2, Y2 = grid.ll2xy(np.array(lon, dtype=float), np.array(lat, dtype=float))
+        store["rt"] = (X, Y, np.asarray(lon, float), np.asarray(lat, float), np.asarray(X2, float), np.asarray(Y2, float))
+
+    d = world.new_dir()
+    try:
+        run = driver.run_scenario(sc, d, monitors=[monitor])
+        account_run(res, run, sc)
+        ll = sc["grid"]["lonlat"]
+        res.history_key = "|".join(map(str, (ll["kind"], ll.get("dxs"), sc["grid"].get("subgrid"),
+                                             sc["grid"]["imax0"], sc["grid"]["jmax0"]))) + "|" + abstract_history(run)
+        v, foreign = crash_violation(ID, run, ANCHORS + ("ladim/ROMS.py",))
+        if v is not None:
+            res.add(v)
+        if foreign:
+            res.aborted_foreign += 1
+        judged = 0
+        # ---- round trip on the live grid
+        if "rt" in store:
+            X, Y, lon, lat, X2, Y2 = store["rt"]
+            res.feed(lon, lat, X2, Y2)
+            tl, tt = xy_to_lonlat(sc, X, Y)
+            bad = (np.abs(lon - tl) > 1e-9) | (np.abs(lat - tt) > 1e-9)
+            if bad.any():
+                q = int(np.nonzero(bad)[0][0])
+                res.add(Violation("C16.output_lonlat", None, f"xy2ll({X[q]:.4f},{Y[q]:.4f})", (lon[q], lat[q]), (tl[q], tt[q])))
+            l2, t2 = xy_to_lonlat(sc, X2, Y2)
+            resid = (l2 - lon) ** 2 + (t2 - lat) ** 2
+            bad = ~(resid < 1e-7) | ~ref.in_valid(X2, Y2, -0.6)
+            if bad.any():
+                q = int(np.nonzero(bad)[0][0])
+                res.add(Violation("C16.roundtrip", None, f"ll2xy(xy2ll({X[q]:.4f},{Y[q]:.4f}))",
+                                  f"({X2[q]:.6f},{Y2[q]:.6f}) residual {resid[q]:.3g} deg^2", "residual < 1e-7 deg^2"))
+            res.probes["roundtrip"] += 1
+        # ---- released positions
+        if sc["release"].get("use_lonlat"):
+            pre, post = run.rec.snap_by_step("release.pre"), run.rec.snap_by_step("release.post")
+            rows = {r["tag"]: r for r in sc["release"]["rows"]}
+            for st in sorted(post):
+                if st not in pre:
+                    continue
+                n0 = pre[st]["n"]
+                newX, newY, tags = post[st]["vars"]["X"][n0:], post[st]["vars"]["Y"][n0:], post[st]["vars"]["tag"][n0:]
+                for x, y, t in zip(newX, newY, tags):
+                    r = rows[int(t)]
+                    lon, lat = xy_to_lonlat(sc, np.array([x]), np.array([y]))
+                    resid = (lon[0] - r["lon"]) ** 2 + (lat[0] - r["lat"]) ** 2
+                    judged += 1
+                    if not resid < 1e-7:
+                        res.add(Violation("C16.release_position", st, f"row tag {t} given as lon/lat",
+                                          f"starts at ({x:.6f},{y:.6f}), residual {resid:.3g} deg^2",
+                                          f"near ({r['X']},{r['Y']}), residual < 1e-7"))
+        # ---- lon/lat in the output
+        R = readback.Records(readback.list_output_files(d))
+        nrec = 0
+        for k, r in enumerate(R.recs):
+            if "lon" not in r["data"] or "X" not in r["data"]:
+                continue
+            if r["layout"] == "sparse":
+                X, Y = np.asarray(r["data"]["X"], float), np.asarray(r["data"]["Y"], float)
+                lon, lat = np.asarray(r["data"]["lon"], float), np.asarray(r["data"]["lat"], float)
+            else:
+                m = readback.dense_members(r)
+                X, Y = np.asarray(r["data"]["X"], float)[m], np.asarray(r["data"]["Y"], float)[m]
+                lon, lat = np.asarray(r["data"]["lon"], float)[m], np.asarray(r["data"]["lat"], float)[m]
+            if not len(X):
+                continue
+            nrec += 1
+            tl, tt = xy_to_lonlat(sc, X, Y)
+            bad = (np.abs(lon - tl) > 1e-9) | (np.abs(lat - tt) > 1e-9)
+            if bad.any():
+                q = int(np.nonzero(bad)[0][0])
+                res.add(Violation("C16.output_lonlat", None, f"record {k} particle at ({X[q]:.6f},{Y[q]:.6f})",
+                                  (lon[q], lat[q]), (tl[q], tt[q])))
+                break
+        if nrec:
+            res.probes["output_lonlat"] += 1
+        res.nontrivial = nrec >= 1 and (judged >= 1 or not sc["release"].get("use_lonlat"))
+        if res.nontrivial:
+            res.probes["run_" + ll["kind"]] += 1
+            if sc["grid"].get("subgrid"):
+                res.probes["run_subgrid"] += 1
+    finally:
+        world.rm_dir(d)
+    return res
+
+
+def execute_utility(sc) -> Result:
+    from ladim.sample import sample2D
+
+    res = Result()
+    s = stream(sc["plan"]["seed"], "utility")
+    res.history_key = f"utility|{sc['plan']['seed']}"
+    res.nontrivial = True
+    res.executions = 1
+    jm, im = s.randint(3, 9), s.randint(3, 9)
+    J, I = np.mgrid[0:jm, 0:im].astype(float)
+    a, b, c, dd = (s.uniform(-5, 5) for _ in range(4))
+    n = 40
+    X = np.array([s.uniform(0, im - 1.001) for _ in range(n)])
+    Y = np.array([s.uniform(0, jm - 1.001) for _ in range(n)])
+
+    def guard(fn, what):
+        try:
+            return fn()
+        except Exception as e:  # noqa: BLE001
+            res.add(Violation("C16.crash:" + type(e).__name__ + "@sample", None, what, repr(e)[:160], "a value"))
+            return None
+
+    # exact on bilinear fields
+    F = a + b * I + c * J + dd * I * J
+    got = guard(lambda: sample2D(F, X, Y), "bilinear field")
+    if got is not None:
+        want = a + b * X + c * Y + dd * X * Y
+        res.feed(np.asarray(got))
+        if np.max(np.abs(got - want)) > 1e-9 * (1 + np.abs(want).max()):
+            q = int(np.argmax(np.abs(got - want)))
+            res.add(Violation("C16.sample2d.exact", None, f"bilinear field at ({X[q]:.4f},{Y[q]:.4f})", got[q], want[q]))
+    # convex combination
+    G = np.array([[s.uniform(-3, 3) for _ in range(im)] for _ in range(jm)])
+    got = guard(lambda: sample2D(G, X, Y), "random field")
+    i0, j0 = X.astype(int), Y.astype(int)
+    corners = np.stack([G[j0, i0], G[j0 + 1, i0], G[j0, i0 + 1], G[j0 + 1, i0 + 1]])
+    if got is not None:
+        if ((got < corners.min(0) - 1e-12) | (got > corners.max(0) + 1e-12)).any():
+            res.add(Violation("C16.sample2d.convex", None, "random field", "outside the corner range", "within"))
+    # masked nodes
+    M = np.array([[1.0 if s.chance(0.7) else 0.0 for _ in range(im)] for _ in range(jm)])
+    undef = s.pick([-999.0, 0.0, 7.5])
+    got = guard(lambda: sample2D(G, X, Y, mask=M, undef_value=undef), "masked field")
+    if got is not None:
+        res.probes["utility_mask"] += 1
+        p_, q_ = X - i0, Y - j0
+        w = np.stack([(1 - p_) * (1 - q_), (1 - p_) * q_, p_ * (1 - q_), p_ * q_])
+        mk = np.stack([M[j0, i0], M[j0 + 1, i0], M[j0, i0 + 1], M[j0 + 1, i0 + 1]])
+        use = (w * mk) > 0
+        for k in range(n):
+            if not use[:, k].any():
+                if (mk[:, k] == 0).all() and got[k] != undef:
+                    res.add(Violation("C16.sample2d.mask", None, f"all four nodes masked at ({X[k]:.4f},{Y[k]:.4f})", got[k], undef))
+                continue
+            vals = corners[:, k][use[:, k]]
+            if got[k] < vals.min() - 1e-12 or got[k] > vals.max() + 1e-12:
+                res.add(Violation("C16.sample2d.mask", None, f"({X[k]:.4f},{Y[k]:.4f}) with masked corners",
+                                  got[k], f"within the unmasked corner values {vals}"))
+                break
+    # outside the grid
+    Xo = X.copy()
+    Yo = Y.copy()
+    Xo[::3] = im + 2.0
+    Yo[1::3] = -1.5
+    outside = (Xo < 0) | (Xo >= im - 1) | (Yo < 0) | (Yo >= jm - 1)
+    for ov in (s.pick([-1.0, 99.0, 1e20]), 0.0):
+        got = guard(lambda ov=ov: sample2D(G, Xo, Yo, outside_value=ov), f"outside_value={ov}")
+        if got is not None:
+            if ov == 0.0:
+                res.probes["utility_outside_zero"] += 1
+            bad = outside & (np.asarray(got) != ov)
+            if bad.any():
+                q = int(np.nonzero(bad)[0][0])
+                res.add(Violation("C16.sample2d.outside", None, f"outside_value={ov} at ({Xo[q]:.2f},{Yo[q]:.2f})", got[q], ov))
+            inside_ok = ~outside & (np.abs(np.asarray(got) - sample2D(G, X, Y)) > 1e-12)
+            if inside_ok.any():
+                res.add(Violation("C16.sample2d.outside", None, "inside points when others are outside", "changed", "unchanged"))
+    return res
+
+
+def execute(sc) -> Result:
+    if sc["plan"]["kind"] == "utility":
+        return execute_utility(sc)
+    return execute_run(sc)
